@@ -173,10 +173,12 @@ class _Continue(Exception):
     pass
 
 
+_SIZED = ["collections.abc.Sized", "collections.abc.Iterable", "collections.abc.Collection"]
 BUILTIN_CLASSES = {"float": ["float", "numbers.Real", "object"], "int": ["int", "numbers.Real", "numbers.Integral", "object"],
-                   "bool": ["bool", "int", "numbers.Real", "object"], "str": ["str", "object"], "NoneType": ["NoneType", "object"],
-                   "dict": ["dict", "object"], "list": ["list", "object"], "tuple": ["tuple", "object"], "type": ["type", "object"],
-                   "set": ["set", "object"]}
+                   "bool": ["bool", "int", "numbers.Real", "object"], "str": ["str", *_SIZED, "object"], "NoneType": ["NoneType", "object"],
+                   "dict": ["dict", *_SIZED, "collections.abc.Mapping", "object"], "list": ["list", *_SIZED, "collections.abc.Sequence", "object"],
+                   "tuple": ["tuple", *_SIZED, "collections.abc.Sequence", "object"], "type": ["type", "object"],
+                   "set": ["set", *_SIZED, "object"]}
 KIND_CLASS = {"real": "float", "bool": "bool", "str": "str", "int": "int", "slice": "slice"}
 BUILTIN_CLASSES["slice"] = ["slice", "object"]
 
@@ -343,8 +345,9 @@ def builtin(name):
 class Interp:
     MAX_STEPS = 200000
 
-    def __init__(self, world: World, ext_models=None):
+    def __init__(self, world: World, ext_models=None, opaque_attrs=None):
         self.w = world
+        self.opaque_attrs = dict(opaque_attrs or {})  # opaque tag -> {attribute: value} (concrete facts about an opaque operand)
         self.steps = 0
         self.trace: list = []  # notable events: stores to instance attributes, raises
         self.ext_models = dict(ext_models or {})  # external dotted name -> callable(interp, args, kwargs)
@@ -973,6 +976,9 @@ class Interp:
                 return Opaque(("super", attr))
             raise PyRaise("AttributeError", f"super object has no attribute {attr}")
         if isinstance(o, Opaque):
+            m = self.opaque_attrs.get(o.tag)
+            if m is not None and attr in m:
+                return m[attr]
             return Opaque(("attr", o.tag, attr))
         if isinstance(o, dict):
             return ("dictmethod", o, attr)
@@ -1244,6 +1250,9 @@ class Interp:
             return None
         if name == "count":
             return s.count(args[0])
+        if name == "sort" and isinstance(s, list):
+            s.sort(key=_sort_key(self, kwargs, node), reverse=bool(kwargs.get("reverse", False)))
+            return None
         raise Undecided(f"list/set method {name}")
 
     def str_method(self, s, name, args, kwargs, node):
@@ -1343,6 +1352,10 @@ def _hasattr(I, args, kwargs, node):
         if o.origin == "abstract" and not o.attrs.get("__closed__"):
             raise Undecided(f"hasattr({o!r}, {a!r}) on an abstract operand")
         return False
+    if isinstance(o, Opaque) and o.kind == "ndarray" and a in ("dtype", "shape", "ndim", "view"):
+        return True
+    if isinstance(o, (list, tuple)) and a in ("dtype", "shape"):
+        return False
     raise Undecided(f"hasattr on {o!r}")
 
 
@@ -1359,9 +1372,23 @@ def _getattr(I, args, kwargs, node):
         raise
 
 
+def _sort_key(I, kwargs, node):
+    key = kwargs.get("key")
+    if key is None:
+        return None
+
+    def k(x):
+        v = I.call(key, [x], {}, node)
+        if not isinstance(v, (int, float, str, tuple)):
+            raise Undecided("sort key is not a concrete value")
+        return v
+
+    return k
+
+
 @builtin("sorted")
 def _sorted(I, args, kwargs, node):
-    return sorted(I.iterate(args[0]))
+    return sorted(I.iterate(args[0]), key=_sort_key(I, kwargs, node), reverse=bool(kwargs.get("reverse", False)))
 
 
 @builtin("zip")
